@@ -17,6 +17,11 @@ if kind == "recursive":
 if kind == "slow":
     import time
     time.sleep(0.05)
+if kind == "handshake":
+    # host.py held: tell the host that the init code runs, then wait (GIL released) for its go
+    import __main__
+    __main__.started.set()
+    __main__.go.wait()
 with open(os.environ["C28_LOG"], "a") as f:
     f.write("init-end %s\n" % kind)
 if kind == "fail":
